@@ -6,7 +6,7 @@ CONSTANTS
   QTypes <- QTypesAll
   Vals = {1, 2, 3}
   ValsOf <- TraceValsOf
-  OpFamilies = {"W", "U", "M"}
+  OpFamilies = {"W", "U", "M", "B"}
   Writers = {"w1", "w2"}
   Readers = {"r1", "r2", "r3", "r4"}
   MaxVer = 90
